@@ -14,6 +14,7 @@
 #include <iostream>
 #include <random>
 #include <thread>
+#include <cfenv>
 #include <atomic>
 #include <link.h>
 #include "tfhe.h"
@@ -391,12 +392,15 @@ static void op_history(const V &a, V &r) {
     for (int round = 0; round < 4; round++) {
         for (int i = 0; i < 6; i++) {
             // history: other gates, unrelated FFT products with extreme values, key generation, encryption
-            int h = rg() % 5; std::vector<int32_t> o;
+            int h = (round == 1 && i == 0) ? 3 : rg() % 5; std::vector<int32_t> o;      // (the large product is always part of round 1)
             if (h == 0) unrelated_fft(rg(), 3);
             else if (h == 1) { eval_work(ws[rg() % 6], o, n); }
             else if (h == 2) { LweSample *c = new_gate_bootstrapping_ciphertext(cur.params); bootsSymEncrypt(c, 1, cur.sk); delete_gate_bootstrapping_ciphertext(c); }
             else if (h == 3) { const int N = 1024; IntPolynomial *A = new_IntPolynomial(N); TorusPolynomial *B = new_TorusPolynomial(N), *R = new_TorusPolynomial(N);
-                for (int j = 0; j < N; j++) { A->coefs[j] = (j & 1) ? (1 << 20) : -(1 << 20); B->coefsT[j] = (j & 1) ? INT32_MIN : INT32_MAX; }
+                // (every other time with coefficients around 2^30: the unreduced product passes 2^63 and the conversion raises FE_INVALID on this thread;
+                //  and the sticky floating-point exception flags are all raised, as an application doing its own arithmetic may leave them)
+                const int mag = (round & 1) ? 30 : 20; if (round & 1) feraiseexcept(FE_ALL_EXCEPT);
+                for (int j = 0; j < N; j++) { A->coefs[j] = (j & 1) ? (1 << mag) : -(1 << mag); B->coefsT[j] = (j & 1) ? INT32_MIN : INT32_MAX; }
                 torusPolynomialMultFFT(R, A, B); delete_TorusPolynomial(R); delete_TorusPolynomial(B); delete_IntPolynomial(A); }
             const Work &wk = ws[(i + round) % 6]; eval_work(wk, o, n); evals++;
             if (o != wk.ref) mism++;
